@@ -29,6 +29,10 @@ CONFIGS = {
     "flush-notag":   [(65535, "op", 0, "read"), (0, "flush", 65535, ""), (3, "flush", 0, "")],
     # a walk that replaces a bound fid is held in the Close of the replaced File: its reply and the Rflush wait for it
     "flush-walkover": [(1, "op", 0, "walkover"), (2, "flush", 1, ""), (3, "op", 0, "getattr")],
+    # a rename whose RenameAt has succeeded and that is held in the Renamed callback of an open file two levels below
+    # the renamed entry: the callback is a backend call on the request's behalf, Rrenameat and Rflush wait for it
+    # (no independent operation beside it: a rename excludes every other path operation - PathLocks.tla)
+    "flush-renamedeep": [(1, "op", 0, "renamedeep"), (2, "flush", 1, ""), (3, "flush", 7, "")],
     "dup-tag":       [(1, "op", 0, "getattr"), (1, "op", 0, "read"), (2, "op", 0, "write")],
     "tag-reuse":     [(1, "op", 0, "getattr"), (2, "op", 0, "read"), (1, "op", 0, "walk")],
     "bad-frame":     [(1, "op", 0, "read"), (2, "bad", 0, ""), (3, "op", 0, "getattr")],
@@ -87,6 +91,7 @@ def run(prop, tier, seed, configs, own, rule, maxscripts, batch=None):
     samples = []
     distinct = set()
     other = 0
+    others = []
     with vlib.Scratch(prop) as s:
         for name in configs:
             reqs = CONFIGS[name]
@@ -150,6 +155,7 @@ def run(prop, tier, seed, configs, own, rule, maxscripts, batch=None):
                     verdict.violation(p, "%s: %s" % (name, mine[0]))
                 else:
                     other += 1
+                    others.append("%s %s: %s" % (name, sc, bad[0]))
             runs.append({"config": "gen-" + name, "edges": g.nedges, "scripts": len(scripts)})
         batch_info = None
         if batch:
@@ -180,7 +186,7 @@ def run(prop, tier, seed, configs, own, rule, maxscripts, batch=None):
                 accepted += tot["rounds"]
     cov = {"states": states, "transitions": transitions, "traces_validated_against_impl": accepted,
            "samples": samples or [{"note": "none"}], "evaluations": nscripts, "distinct_nontrivial": len(distinct),
-           "rule": rule, "scripts_owned_by_other_property_rejected": other, "tlc_runs": runs,
+           "rule": rule, "scripts_owned_by_other_property_rejected": other, "rejected_owned_elsewhere": others[:5], "tlc_runs": runs,
            "concurrent_batches": batch_info,
            "exhaustive": maxscripts is None,
            "checker_cmd": "tlc ConnLoop.tla + lib/bigstep.py + harness/cmd/connsched"}
